@@ -1258,6 +1258,22 @@ func (fv *FV) callByContract(st *State, c *Contract, fn *types.Func, sig *types.
 		g := fv.evalSpecBool(env, r.Expr)
 		fv.oblige(st, fmt.Sprintf("call%d(%s).pre", k, short), r.Label, g, r.Text, pos)
 	}
+	// direct recursion needs a measure (termination is otherwise not looked at)
+	if c == fv.contract {
+		var dec *Clause
+		for i := range c.Loops {
+			if c.Loops[i].Kind == "decreases" && c.Loops[i].Loop == 0 {
+				dec = &c.Loops[i]
+			}
+		}
+		if dec == nil {
+			fv.oblige(st, "term.recursion", "", "false", "a function that calls itself needs a decreases clause: without a measure the call never returns", pos)
+		} else {
+			mc := fv.evalSpec(env, dec.Expr)
+			me := fv.evalSpec(&SpecEnv{fv: fv, names: fv.specNames, cur: fv.oldState, old: fv.oldState, pkg: fv.fn.pkg, tsub: fv.tsub}, dec.Expr)
+			fv.oblige(st, "term.recursion", "", fmt.Sprintf("(and (<= 0 %s) (< %s %s))", mc.T, mc.T, me.T), dec.Text, pos)
+		}
+	}
 	// frame
 	fv.havocFrame(st, c, env)
 	// channels the callee closes
